@@ -291,6 +291,23 @@ theorem persist_partial (v : Variant) (ops : List Op) (h : NoResetNoLiftNoLate v
     ops _ ⟨Base.init, Order.init, Above.init⟩ h
   exact reopen_group_of_inv v _ this.1 this.2.1 this.2.2 g grp hl
 
+/-- (6) reopen restores EVERY group that exists on disk, eagerly (`initConsumerGroups` constructs one
+`ConsumerGroup` per directory under cg/, tie `init_groups_tie`): the groups in the map after
+`NewFanOutQueue` are exactly the persisted ones — in any state, for every variant — so the next Sync
+takes its minimum over all of them, looked up by the caller or not. -/
+theorem reopen_restores_all_groups (v : Variant) (s : State) (g : Nat) :
+    (lookup (step v s .reopen).1.live g).isSome = (lookup s.metas g).isSome := by
+  show (lookup (s.reopen v).live g).isSome = _
+  rw [reopen_live_lookup, reopen_metas_lookup]
+  cases lookup s.metas g <;> rfl
+
+/-- ... in particular no group that was live before the close is missing afterwards, and the set of
+groups only grows by the stopped ones (whose directories are still there). -/
+theorem reopen_keeps_live_groups (v : Variant) (ops : List Op) (h : NoReset v ops) (g : Nat) (grp : Group)
+    (hl : lookup (run v State.init ops).live g = some grp) :
+    (lookup (step v (run v State.init ops) .reopen).1.live g).isSome = true := by
+  rw [reopen_restores_all_groups, (base_of_noReset h).grp g grp hl]; rfl
+
 /-- (6) the meta pages always hold the in-memory positions (write-through), so nothing depends on
 a clean close: every variant, every history without reset. -/
 theorem persist_write_through (v : Variant) (ops : List Op) (h : NoReset v ops) :
@@ -714,6 +731,15 @@ theorem lock_sections_tie :
       essential ["metaPage.PutUint64", "acknowledgedSeq.Store"] Generated.C06.ackLockedCalls ∧
     Generated.C06.consumeCalls.take 2 = ["lock4headSeq.Lock", "defer:lock4headSeq.Unlock"] ∧
     Generated.C06.consumeLockedCalls = Generated.C06.consumeCalls := by decide
+
+/-- `initConsumerGroups` constructs and registers a group for every directory it lists -/
+theorem init_groups_tie :
+    Generated.C06.initConsumerGroupsLoop =
+      ["fo, err := newConsumerGroupFunc(fq.consumerGroupDir, fn, fq)", "if err != nil { return err }",
+       "fq.consumerGroups[fn] = fo"] ∧
+    essential ["mkDirFunc", "listDirFunc", "newConsumerGroupFunc"] Generated.C06.initConsumerGroupsCalls =
+      ["mkDirFunc", "listDirFunc", "newConsumerGroupFunc"] ∧
+    Generated.C06.newFanOutQueueCalls.getLast? = some "fq.initConsumerGroups" := by decide
 
 /-! ## non-vacuity: the hypotheses are satisfied by non-trivial histories -/
 
